@@ -44,7 +44,7 @@ RULE = ("random stacks (depth 0-6, any order of map / flat_map / retry / poll / 
         "threads x 1-4 submissions each with their own outcome script x schedule; distinct = distinct (program, schedule) hash; "
         "non-trivial = at least one layer and one submission resolved")
 
-CLS = {"E0": 0, "E1": 1, "E2": 2}
+CLS = {"E0": 0, "E1": 1, "E2": 2, "BE": 3}
 
 
 def gen_c01_layer(rng, kind):
@@ -131,7 +131,9 @@ def gen_scenarios(seed, tier):
                         if rng.random() < (0.75 if j == nent - 1 else 0.3):
                             beh.append(["ret", 1000 * (kidx + 1) + j])
                         else:
-                            beh.append(["raise", rng.choice(["E0", "E0", "E1", "E2"])])
+                            # over a pool also an outcome that is a BaseException but not an Exception (the callable only: user
+                            # functions of the layers raising such a thing is outside every guard of the library, by design)
+                            beh.append(["raise", rng.choice(["E0", "E0", "E1", "E2"] + (["BE"] if str(base).startswith("simpool") else []))])
                         script.append(beh)
                     kw = {"tag": "t%d" % kidx} if rng.random() < 0.3 else {}
                     ops.append(["submit", key, script, kw])
@@ -144,6 +146,11 @@ def gen_scenarios(seed, tier):
             for key in mine:
                 ops.append(["result", key, None])
             clients.append(ops)
+        if any(st == ["raise", "BE"] for ops in clients for op in ops if op[0] == "submit" for beh in op[2] for st in beh):
+            # an error function that re-raises what it is given would itself raise a BaseException: user code outside every guard
+            for lay in layers:
+                if lay[0] == "map":
+                    lay[1]["errfn"] = False
         d = dict(kind="stack", idx=i, base=base, layers=layers, clients=clients,
                  tail=1.0, seed=rng.randrange(1 << 30), max_yields=200000)
         d.update(sc.schedule_modes(rng))
